@@ -1372,3 +1372,95 @@ func init() {
 		"non-trivial = a join (mxid_mapping judged) or an invite (two pseudo-ID signers), or a faulty sender signature; distinct = distinct Case JSON",
 		600, 10000, 8, c06PGen, c06PCheck)
 }
+
+// ---------------------------------------------------------------------------------------------
+// C06/self-verifier-batch — the verifier of pseudo-ID rooms (JSONVerifierSelf: the "server name" of a
+// request is the sender's key) on batches: one result per request, in request order, each the
+// verdict the request gets on its own - whatever stands before or after it in the batch, whatever
+// the context.
+
+type c06SelfReq struct {
+	Signer string `json:"signer"` // key label of the pseudo ID the request names
+	Kind   string `json:"kind"`   // good | tampered | other-key | unsigned | not-a-key
+}
+
+type c06SelfCase struct {
+	Reqs  []c06SelfReq `json:"reqs"`
+	Ended bool         `json:"ended_context,omitempty"`
+}
+
+func c06SelfGen(t *rapid.T) c06SelfCase {
+	var c c06SelfCase
+	n := rapid.IntRange(1, 5).Draw(t, "n")
+	for i := 0; i < n; i++ {
+		c.Reqs = append(c.Reqs, c06SelfReq{Signer: rapid.SampledFrom([]string{"alice", "bob", "carol"}).Draw(t, "signer"),
+			Kind: rapid.SampledFrom([]string{"good", "good", "tampered", "other-key", "unsigned", "not-a-key"}).Draw(t, "kind")})
+	}
+	c.Ended = rapid.IntRange(0, 3).Draw(t, "ended") == 0
+	return c
+}
+
+func c06SelfCheck(ctx *vfCtx, c c06SelfCase) {
+	var reqs []VerifyJSONRequest
+	var want []bool
+	for i, r := range c.Reqs {
+		name := c06PseudoID(r.Signer)
+		_, priv := vfKeyFor(r.Signer)
+		obj := jobj("n", jnum(int64(i)), "room", jstr("!r:x"), "who", jstr(name))
+		payload := []byte(jcanon(obj))
+		sig := ed25519.Sign(priv, payload)
+		switch r.Kind {
+		case "tampered":
+			obj = obj.with("n", jnum(int64(i+100)))
+		case "other-key":
+			_, other := vfKeyFor("mallory")
+			sig = ed25519.Sign(other, payload)
+		case "not-a-key":
+			name = "@" + r.Signer + ":a.example"
+		}
+		msg := obj
+		if r.Kind != "unsigned" {
+			msg = obj.with("signatures", jobj(name, jobj("ed25519:1", jstr(base64.RawStdEncoding.EncodeToString(sig)))))
+		}
+		reqs = append(reqs, VerifyJSONRequest{ServerName: spec.ServerName(name), Message: []byte(jplain(msg)), ValidityCheckingFunc: NoStrictValidityCheck})
+		want = append(want, r.Kind == "good")
+	}
+	cx := c06Ctx()
+	if c.Ended {
+		var cancel context.CancelFunc
+		cx, cancel = context.WithCancel(cx)
+		cancel()
+		ctx.Class("ended-context")
+	}
+	var got []VerifyJSONResult
+	var err error
+	if vfCatch(ctx, "C06/self-verifier-batch", func() { got, err = JSONVerifierSelf{}.VerifyJSONs(cx, reqs) }) {
+		return
+	}
+	if len(c.Reqs) >= 2 {
+		ctx.NonTrivial()
+	}
+	if err != nil {
+		if c.Ended {
+			return // refusing to work for a caller that has gone is fine
+		}
+		ctx.Fail("C06/self-verifier-batch/error", "VerifyJSONs failed as a whole: %v", err)
+		return
+	}
+	if len(got) != len(reqs) {
+		ctx.Fail("C06/self-verifier-batch/result-count", "%d requests, %d results", len(reqs), len(got))
+		return
+	}
+	for i := range reqs {
+		if ok := got[i].Error == nil; ok != want[i] {
+			if ok || !c.Ended {
+				ctx.Fail(fmt.Sprintf("C06/self-verifier-batch/wrong-verdict/%s", c.Reqs[i].Kind), "request %d of %d (%s, signer %s): verified=%v, want %v (error %v); batch %+v", i, len(reqs), c.Reqs[i].Kind, c.Reqs[i].Signer, ok, want[i], got[i].Error, c.Reqs)
+				return
+			}
+		}
+	}
+}
+
+func init() {
+	vfRapid("C06/self-verifier-batch", "non-trivial = a batch of two or more requests (good, tampered, signed by another key, unsigned, named by something that is no key), in every order; distinct = distinct Case JSON", 1500, 40000, 4, c06SelfGen, c06SelfCheck)
+}
